@@ -24,7 +24,8 @@ ASSUMED = {
         "(hence {sum(el)} is the k-fold sumset; one empty tuple for k=0; nothing for k<0)",
     "isinstance": "isinstance follows the class hierarchy read from the repository sources (closed world)",
     "int.bit_length": "n.bit_length() for n>=0 is the least w with n < 2**w",
-    "math.log2/ceil": "2**ceil(log2(n)) for concrete n in [1,64] is evaluated on the running math module",
+    "math.log2/ceil": "ceil(log2(n)) for n in [1,256] is evaluated on the running math module (a table); for n > 256 "
+                      "it is some e >= 9 with 2**(e-1) < n <= 2**e (monotonicity / accuracy of math.log2 assumed)",
     "dict": "dict lookup raises KeyError iff the key is absent; insertion order iteration",
     "fractions.Fraction": "Fraction is an exact rational: + - * exact, / and % raise ZeroDivisionError iff divisor is 0",
     "str.lower": "str.lower is an uninterpreted per-string function unless the string is concrete",
@@ -38,6 +39,13 @@ BUILTIN_FUNCS = {
 }
 
 TYPE_NAMES = {"int", "str", "bool", "float", "set", "frozenset", "list", "tuple", "dict", "bytes", "bytearray", "object", "type"}
+
+
+class Log2V:
+    """math.log2(x) of a symbolic positive integer x: only math.ceil of it is modelled."""
+
+    def __init__(self, arg):
+        self.arg = arg
 
 
 class Lib:
@@ -352,7 +360,7 @@ class Lib:
         raise EngineLimit("set operator")
 
     def seq_concat(self, ctx, a, b):
-        other = b if isinstance(a, SymSeq) else a
+        other = a if isinstance(a, SymSeq) else b
 
         def as_seq(v):
             if isinstance(v, SymSeq):
@@ -507,6 +515,8 @@ class Lib:
                 return PyList(r) if isinstance(o, PyList) else tuple(r)
             raise EngineLimit("symbolic slice of a concrete list")
         if isinstance(o, SymSeq):
+            if lo is None and hi is None:
+                return SymSeq(o.arr, o.length, o.kind, fresh=True)  # x[:] - a fresh copy with the same elements
             lo_t = z3.IntVal(0) if lo is None else V.Int.unwrap(lo)
             hi_t = o.length if hi is None else V.Int.unwrap(hi)
             lo_n = z3.If(lo_t < 0, z3.If(lo_t + o.length < 0, 0, lo_t + o.length), z3.If(lo_t > o.length, o.length, lo_t))
@@ -923,45 +933,98 @@ class Lib:
             return math.ceil(x.value)
         if isinstance(x, int):
             return x
+        if isinstance(x, Log2V):
+            return self.ceil_log2(ctx, x.arg)
         raise EngineLimit("math.ceil of a symbolic value")
 
+    _LOG2_CLASSES = 8
+
+    def ceil_log2(self, ctx, x):
+        """ceil(log2(x)) for a symbolic integer x >= 1: class e = 0..8 is `2**(e-1) < x <= 2**e` (checked against the
+        running math module for every x <= 256 - a table, not an assumption); x > 256: some e >= 9 (ASSUMED monotonicity
+        of math.log2) with pow2(e-1) < x <= pow2(e)."""
+        top = self._LOG2_CLASSES
+        if not getattr(self, "_log2_table_ok", False):
+            for e in range(0, top + 1):
+                lo = 1 if e == 0 else 2 ** (e - 1) + 1
+                for xv in range(lo, 2 ** e + 1):
+                    if math.ceil(math.log2(xv)) != e:
+                        raise EngineLimit("math.ceil(math.log2(%d)) != %d on the running interpreter" % (xv, e))
+            self._log2_table_ok = True
+        conds = []
+        for e in range(0, top + 1):
+            lo = 1 if e == 0 else 2 ** (e - 1) + 1
+            conds.append((e, z3.And(x >= lo, x <= 2 ** e)))
+        conds.append((None, x > 2 ** top))
+        feas = [(e, c) for e, c in conds if self.e.feasible(ctx, c)]
+        if not feas:
+            from .symexec import PathEnd
+
+            raise PathEnd()
+        k = ctx.choose(len(feas)) if len(feas) > 1 else 0
+        e, c = feas[k]
+        ctx.pc.append(c)
+        if e is not None:
+            return e
+        ev = ctx.fresh("ceillog2", z3.IntSort())
+        ctx.assume(z3.And(ev >= top + 1, self.pow2(ev) >= x, self.pow2(ev - 1) < x, self.pow2(ev) >= 2 ** (top + 1)))
+        return ev
+
     def concretize(self, ctx, t, limit=140):
-        """Case split a symbolic integer whose range under the path condition is small (finite instantiation)."""
+        """Case split a symbolic integer whose range under the path condition is small (finite instantiation):
+        all feasible values are enumerated once (cached per path condition), then one unconditional n-way fork."""
         if isinstance(t, int):
             return t
         from .symexec import has_quantifier, PathEnd
 
         cache = self.e.__dict__.setdefault("_concretize_cache", {})
-        for _ in range(limit):
-            qf = [p for p in ctx.pc if not has_quantifier(p)]
-            key = (tuple(p.get_id() for p in qf), t.get_id())
-            if key in cache:
-                v = cache[key][0]
-            else:
-                s = z3.Solver()
-                s.set("timeout", 2000)
-                for p in qf:
-                    s.add(p)
-                if s.check() != z3.sat:
-                    v = None
-                else:
-                    v = s.model().eval(t, model_completion=True)
-                cache[key] = (v, qf, t)
-            if v is None:
-                raise PathEnd()
-            if not z3.is_int_value(v):
-                raise EngineLimit("cannot concretize %s" % t)
-            if ctx.decide(t == v):
-                return v.as_long()
-        raise EngineLimit("value of %s is not confined to a small range at a point where a concrete integer is needed" % t)
+        qf = [p for p in ctx.pc if not has_quantifier(p)]
+        key = (tuple(p.get_id() for p in qf), t.get_id())
+        if key not in cache:
+            s = z3.Solver()
+            s.set("timeout", 5000)
+            for p in qf:
+                s.add(p)
+            vals = []
+            status = "ok"
+            while True:
+                r = s.check()
+                if r == z3.unsat:
+                    break
+                if r != z3.sat:
+                    status = "unknown"
+                    break
+                v = s.model().eval(t, model_completion=True)
+                if not z3.is_int_value(v):
+                    status = "nonint"
+                    break
+                vals.append(v.as_long())
+                if len(vals) > limit:
+                    status = "toomany"
+                    break
+                s.add(t != v)
+            cache[key] = (sorted(vals), status, qf, t)
+        vals, status = cache[key][0], cache[key][1]
+        if status == "toomany" or status == "nonint":
+            raise EngineLimit("value of %s is not confined to a small range at a point where a concrete integer is needed" % t)
+        if status == "unknown":
+            raise EngineLimit("cannot enumerate the values of %s (solver unknown)" % t)
+        if not vals:
+            raise PathEnd()
+        k = ctx.choose(len(vals)) if len(vals) > 1 else 0
+        ctx.pc.append(t == vals[k])
+        return vals[k]
 
     def bi_math_log2(self, ctx, x):
         if isinstance(x, V.FloatV):
             return V.FloatV(math.log2(x.value))
-        x = self.concretize(ctx, x)
-        if x > 0:
-            return V.FloatV(math.log2(x))
-        raise self.raise_ext("ValueError", "math.log2 of a non-positive number")
+        if isinstance(x, int):
+            if x > 0:
+                return V.FloatV(math.log2(x))
+            raise self.raise_ext("ValueError", "math.log2 of a non-positive number")
+        if ctx.decide(x <= 0):
+            raise self.raise_ext("ValueError", "math.log2 of a non-positive number")
+        return Log2V(x)
 
     def bi_round(self, ctx, x, nd=None):
         if isinstance(x, V.FloatV) and nd is None:
